@@ -313,6 +313,11 @@ pub fn run_child(ctx: &mut Ctx) {
                     if let Some(c) = ch.finish() { cs.push((c.hash, c.data.len())); }
                     let want = merkledb::aggregate_hashes::file_node_hash(&cs, &[0u8; 32]).unwrap();
                     let got = d.pointer.hash().unwrap_or_default();
+                    // C04 (through the cleaner's own re-partitioning of large calls): the chunks the cleaner cut cover the stream exactly
+                    // and are as many as the chunker cuts from the same bytes in one call
+                    if m.total_chunks as usize != cs.len() || m.total_bytes as usize != cs.iter().map(|c| c.1).sum::<usize>() {
+                        ctx.fail("C04", "cleaner-chunks-differ-from-one-shot-chunking", format!("stream of {} bytes fed in {} add_data calls (ingestion block {ingest}) was cut into {} chunks covering {} bytes; the chunker cuts the same bytes in one call into {} chunks covering {} bytes", d.spec.data.len(), d.spec.parts.len(), m.total_chunks, m.total_bytes, cs.len(), cs.iter().map(|c| c.1).sum::<usize>()), replay.clone());
+                    }
                     if got != want { ctx.fail("C03", "pointer-differs-from-one-shot-reference", format!("file of {} bytes fed in {} add_data calls has pointer hash {} but the same bytes chunked in one call hash to {}", d.spec.data.len(), d.spec.parts.len(), got.hex(), want.hex()), replay.clone()); }
                     let key = compute_data_hash(&d.spec.data);
                     match seen_pointers.get(&key) {
